@@ -214,6 +214,9 @@ class ProducerScenario:
                 continue
             self.accepted.append((i, j, part, value, key, tuple(headers), ts, world.now()))
             world.record("accepted", value, part)
+            ma = self.p.get("mode_after")
+            if ma and len(self.accepted) == ma[0] and not getattr(self, "_mode", None):
+                self.set_mode(tuple(ma[1]))  # cluster condition in force once records are pending (C19)
             self.futs[value] = fut
             fut.add_done_callback(lambda f, value=value: self.on_resolved(value, f))
 
@@ -273,7 +276,8 @@ class ProducerScenario:
         self._mode = mode
         self.world.record("cluster-mode", mode)
         if mode[0] == "down":
-            self.cluster.broker_down(mode[1])
+            for n in (self.cluster.nodes if mode[1] == "all" else [mode[1]]):
+                self.cluster.broker_down(n)
         else:
             self.cluster.blackhole = True
 
